@@ -61,6 +61,11 @@ _PGF_MODULES = [
     "pygradflow.step.distance_ratio_control",
     "pygradflow.step.cond_estimate",
     "pygradflow.solver",
+    "pygradflow.integration.events",
+    "pygradflow.integration.flow",
+    "pygradflow.integration.problem_switches",
+    "pygradflow.integration.restricted_flow",
+    "pygradflow.integration.integration_solver",
 ]
 
 
